@@ -44,7 +44,7 @@ RULE = ("BFS over histories of {call(side, kind in ok/later/declared-error/undec
         "two calls were outstanding at once, an answer overtook another, a loss hit an outstanding call, or a box was "
         "partially delivered")
 BOUNDS = {"quick": "<= 3 calls in total (any split between the sides), depth 6 (sharded on the first 2 events)",
-          "thorough": "<= 3 calls per side, <= 4 in total, depth 8 (sharded on the first 3 events)"}
+          "thorough": "<= 3 calls per side, <= 4 in total, depth 7 (sharded on the first 2 events)"}
 ASSUMPTIONS = [
     "the peers talk over MemTransport: bytes written after loseConnection are dropped (a real TCP transport would still "
     "send them); the reference follows the bytes actually on the wire, so both behaviours are accepted",
@@ -433,7 +433,7 @@ def canon(st):
 
 # ----------------------------------------------------------------------------------------------
 def config(tier):
-    return {"quick": (3, 3, 6, 2), "thorough": (3, 4, 8, 3)}[tier]   # per-side calls, total calls, depth, prefix len
+    return {"quick": (3, 3, 6, 2), "thorough": (3, 4, 7, 2)}[tier]   # per-side calls, total calls, depth, prefix len
 
 
 def initial_for(tier, prefix):
